@@ -28,6 +28,10 @@ CHECKS = {
    technique="SMT (z3) membership proof: for every location of either original map and all states satisfying that map's path conditions, its value equals one of the merged alternatives (vec members, nested vecs expanded); structural check of the merged location set",
    text="Bounded translation validation over seeded synthetic map pairs (registers, sub-registers, flags, overlapping stack slots, path conditions) and 5 option/threshold settings: each original value is proven to be among the merged alternatives for ALL states (unsat) unless the merged value is top/vecw (admitted by the statement, counted). Counterexamples are replayed by evaluating the three maps on the model state.",
    note="trusted: z3, vf/termsmt.T/expand; a mutation that makes merge return 'unknown' everywhere is within the statement and is not detected (the count of admitted tops is reported)"),
+ "C03": dict(level="model_checking", engine="E2", design="DESIGN.md section 4 C03",
+   technique="symbolic execution (z3-backed ints/bytes) of ispec.decode on fully symbolic instruction words and tails, per path SMT proof that acceptance and every delivered field equal an independent interpreter of the format string",
+   text="Bounded model checking per spec: the path set of ispec.decode over ALL instruction words (and 0-2 tail bytes, both fetch endiannesses, a too-short input) is explored completely; on every path acceptance <=> reference fixed bits, instruction bytes, each int/Bits/bit-string/attribute field, static arguments and precondition roll-back are proven (unsat of the negation). Covers every shipped spec (quick: 1/3) and exhaustive/structured synthetic formats incl. ispec_ia32 macros.",
+   note="trusted: z3, symx proxies and injected builtin models (validated by a concolic replay of one model per path through the real decode), vf/refs/specref.py (the independent format interpreter); '#' strings are realized under a cap (capped sites counted)"),
 }
 
 NA_REASON = "check not built yet (construction in progress)"
